@@ -1,0 +1,27 @@
+// Copyright (c) The Thanos Community Authors.
+// Licensed under the Apache License 2.0.
+
+//go:build verif
+
+package worker
+
+import "github.com/thanos-community/promql-engine/verifhook"
+
+// verifPreSelect is a scheduling point in front of the worker's blocking
+// two-way select. Go resolves a select with several ready cases with a
+// generator nobody can seed, so when the context is already done a queued
+// task is dropped here and the select sees exactly one ready case. "Done
+// wins" is a legal outcome of the real select; "task wins" is the same as
+// this worker having been scheduled one step earlier, which the simulator
+// explores as a separate schedule.
+func (w *Worker) verifPreSelect() {
+	verifhook.Yield("worker.loop")
+	select {
+	case <-w.ctx.Done():
+		select {
+		case <-w.input:
+		default:
+		}
+	default:
+	}
+}
